@@ -16,7 +16,9 @@ CORR_ONLY = ["exactness to degree 2n-1: PROVED for all n for the rule with nodes
              "weight formula, algebraic integral, any field of characteristic 0; instances n=2,3 in R); what is still only "
              "EVALUATED per n on the implementation's nodes/weights (Legendre basis and monomials up to degree min(2n-1,60), "
              "160-bit fixed point / exact fractions) is that the doubles returned are those roots/weights to rounding, i.e. "
-             "existence of n distinct real roots of P_n and convergence of the coded Newton iteration to them",
+             "convergence of the coded Newton iteration to them (existence of n distinct real roots of the coded P_n in (-1,1), "
+             "simplicity, and positivity of the coded weights are theorems over R for every n: Lp.C12.legendre_real_roots, "
+             "legendre_roots_nodup, gl_exact_legendre_real, gl_exact_legendre_real_interval)",
              "nodes strictly increasing and strictly inside, weights positive: evaluated per order (the sum b-a is a theorem for exact roots, Lp.C12.gl_weights_sum) on the "
              "implementation's output and, through class B, against the model's 200-bit Newton iteration",
              "convergence of the Newton iteration from the coded start value (termination of while(true))"]
@@ -148,6 +150,51 @@ def generate(tier, seed, ctx):
         else:              # random walk of positions with one width, mixed with another width
             mem = [(n, q, q + (w if j % 3 else 2 * w)) for j, q in enumerate(dyadic(rng, -3, 3, 2) for _ in range(5))]
         _iseq(c, mem)
+    # re-entrant use: the integrand of overload (func,a,b,n) calls overload (func,a',b',n') with limits that depend
+    # on the outer variable (iterated integrals over triangles/trapezia); same and different orders, >= 8 outer nodes
+    for t in range(10 if not thorough else 40):
+        nO = rng.choice([8, 9, 12, 16, 30]) if t % 3 else rng.randint(8, 40)
+        nI = nO if t % 2 == 0 else rng.choice([3, 4, 5, 8, 10, 13])
+        a0, b0 = dyadic(rng, -2, 2, 2), dyadic(rng, -2, 2, 2)
+        if a0 == b0:
+            b0 = a0 + 1.0
+        kind = t % 5
+        if kind == 0:
+            l0, l1, h0, h1 = 0.0, 0.0, 0.0, 1.0            # triangle: y from 0 to x
+        elif kind == 1:
+            l0, l1, h0, h1 = 0.0, 1.0, 1.0, 0.0            # y from x to 1
+        elif kind == 2:
+            l0, l1, h0, h1 = 0.0, -1.0, 0.0, 1.0           # y from -x to x
+        elif kind == 3:
+            l0, l1, h0, h1 = dyadic(rng, -2, 2, 1), dyadic(rng, -1, 1, 1), dyadic(rng, -2, 2, 1), dyadic(rng, -1, 1, 1)
+        else:
+            l0, l1, h0, h1 = dyadic(rng, -2, 0, 1), 0.0, dyadic(rng, 0, 2, 1) + 0.5, 0.0   # fixed inner limits (rectangle)
+        jmax = min(2 * nI - 1, 5)
+        ts = []
+        for _ in range(rng.randint(1, 3)):
+            j = rng.randint(0, jmax)
+            i = rng.randint(0, max(0, min(4, 2 * nO - 2 - j - 1)))
+            ts.append((float(rng.choice([-3, -2, -1, 1, 2, 3])) / rng.choice([1, 2]), i, j))
+        ts.append((2.0, 0, min(1, jmax)))
+        R.append("c12.reent %d %d %s %s %s %s %s %s %d %s" % (nO, nI, hx(a0), hx(b0), hx(l0), hx(l1), hx(h0), hx(h1), len(ts),
+                                                       " ".join("%s %d %d" % (hx(c), i, j) for c, i, j in ts)))
+    # narrow intervals far from the origin: |b-a|/max(|a|,|b|) log-uniform from 1e-6 down to 1e-13, still >= ~1e3 ulps
+    # wide; the order is limited so that neighbouring nodes (spacing ~ 1.4 (b-a)/n^2 at the ends) stay >= 16 ulps apart
+    for t in range(24 if not thorough else 120):
+        rel = 10.0 ** rng.uniform(-13, -6)
+        mag = 10.0 ** rng.uniform(0, 13) * rng.choice([-1.0, 1.0])
+        a0 = mag * rng.uniform(1, 9.99)
+        ulp = math.ulp(abs(a0))
+        wdt = max(abs(a0) * rel, 1100 * ulp)
+        b0 = a0 + wdt if t % 3 else a0 - wdt
+        wulps = abs(b0 - a0) / max(math.ulp(abs(a0)), math.ulp(abs(b0)))
+        nmax = max(1, min(40, int(math.sqrt(wulps * 1.4 / 16))))
+        n = rng.randint(1, nmax) if t % 2 else nmax
+        R.append("c12.rule %d %s %s" % (n, hx(a0), hx(b0)))
+        ctx["cls"][len(R) - 1] = "narrow-rev" if b0 < a0 else "narrow"
+        if t % 4 == 0:
+            c = [float(rng.randint(-3, 3)), float(rng.randint(1, 3))]
+            R.append("c12.integ %s %s %s %d" % (lst(c), hx(a0), hx(b0), n))
     # overloads on explicit data: equal and mismatched sizes
     for t in range(120 if thorough else 40):
         n = rng.randint(0, 12)
@@ -271,6 +318,32 @@ def oracle_rule(n, a, b, xs, ws, ctx):
                 break
             pw = [p * x for p, x in zip(pw, Xi)]
             den *= sx
+    # moments about the left limit, (x-a)^k: the sharp exactness test on intervals far from the origin.  Exact integer
+    # arithmetic; tolerance = Newton stopping tolerance propagated + rounding of the weights + the nodes' ulp
+    # (|x_i| 2^-53 each, entering through k (x-a)^(k-1))
+    if not out and n <= 128:
+        D = [x - A for x in X]
+        sd = max(d.denominator for d in D); sw = max(w.denominator for w in W)
+        Di = [int(d * sd) for d in D]; Wi = [int(w * sw) for w in W]
+        Ci = [int(c * (1 << 20)) + 1 for c in cond]
+        nodeulp = max(abs(A), abs(B)) * EPS * 4          # rounding of mid -+ h z
+        pw = [1] * n; pwprev = [0] * n
+        den = sw; denprev = sw
+        for k in range(0, min(2 * n - 1, 20) + 1):
+            s = Fraction(sum(w * p for w, p in zip(Wi, pw)), den)
+            sa = Fraction(sum(abs(w * p) for w, p in zip(Wi, pw)), den)
+            sn = Fraction(sum(abs(w * p) * c for w, p, c in zip(Wi, pw, Ci)), den << 20)
+            sp = Fraction(sum(abs(w * p) for w, p in zip(Wi, pwprev)), denprev) if k else Fraction(0)
+            exact = (B - A) ** (k + 1) / (k + 1)
+            tol = NEWTON * sn + Fraction(64 * (k + 4)) * EPS * sa * growth + 4 * k * sp * nodeulp
+            _worst(ctx, "shifted-moment-residual/tol", float(abs(s - exact) / tol) if tol else 0.0)
+            if abs(s - exact) > tol:
+                out.append(("polynomial of degree <= 2n-1 not integrated exactly (moment about the lower limit)",
+                            "(x-a)^%d: %.17g vs exact %.17g" % (k, float(s), float(exact))))
+                break
+            pwprev, denprev = pw, den
+            pw = [p * d for p, d in zip(pw, Di)]
+            den *= sd
     return out
 
 
@@ -420,6 +493,76 @@ def compare_iseq(rq, impl, model, ctx):
     return out
 
 
+def _padd(p, q):
+    n = max(len(p), len(q))
+    return [(p[i] if i < len(p) else 0) + (q[i] if i < len(q) else 0) for i in range(n)]
+
+
+def _pmul(p, q):
+    r = [Fraction(0)] * (len(p) + len(q) - 1)
+    for i, x in enumerate(p):
+        for j, y in enumerate(q):
+            r[i + j] += x * y
+    return r
+
+
+def _ppow(p, k):
+    r = [Fraction(1)]
+    for _ in range(k):
+        r = _pmul(r, p)
+    return r
+
+
+def compare_reent(rq, impl, model, ctx):
+    """re-entrancy (theorems nestedGL_eq / nestedGL_exact): nested use of the integrating overload with limits that
+    depend on the outer variable equals the same computation through the rule-taking overloads, bit for bit, and the
+    exact iterated integral of the polynomial"""
+    a = rq.split()[1:]
+    nO, nI = int(a[0]), int(a[1])
+    x0, x1, l0, l1, h0, h1 = [Fraction(fl(t)) for t in a[2:8]]
+    k = int(a[8])
+    ts = [(Fraction(fl(a[9 + 3 * t])), int(a[10 + 3 * t]), int(a[11 + 3 * t])) for t in range(k)]
+    fs, both = std_outcome(rq, impl, model)
+    ctx["nontrivial"].add(("c12.reent", nO, nI, l1 != 0 or h1 != 0))
+    if not both:
+        if tag(impl) == "err" and tag(model) == "ok":
+            return [fail("prop", "the three Integrate_Gauss_Legendre overloads disagree on the same rule",
+                         "nested use of overload (func,a,b,n) stopped with a diagnostic (nOut=%d, nIn=%d)" % (nO, nI))]
+        return fs
+    v = [fl(t) for t in toks(impl)]
+    out = list(fs)
+    if not (toks(impl)[0] == toks(impl)[1] == toks(impl)[2] == toks(impl)[3]):
+        out.append(fail("prop", "the three Integrate_Gauss_Legendre overloads disagree on the same rule",
+                        "nested use, inner limits depending on the outer variable (nOut=%d, nIn=%d): overload 1 at both levels %r, "
+                        "explicit rules with overload 2 %r, overload 3 %r, overload 1 outside / explicit rule inside %r"
+                        % (nO, nI, v[0], v[1], v[2], v[3])))
+    # exact iterated integral: inner antiderivative is a polynomial in x
+    lo, hi = [l0, l1], [h0, h1]
+    tot = Fraction(0)
+    scale = Fraction(0)
+    X = max(abs(x0), abs(x1))
+    Y = max(abs(l0) + abs(l1) * X, abs(h0) + abs(h1) * X)
+    Wd = abs(h0 - l0) + abs(h1 - l1) * X
+    exactable = True
+    for c, i, j in ts:
+        inner = [t / (j + 1) for t in _padd(_ppow(hi, j + 1), [-t for t in _ppow(lo, j + 1)])]
+        poly = _pmul([Fraction(0)] * i + [Fraction(1)], inner)
+        tot += c * sum(ck * (x1 ** (m + 1) - x0 ** (m + 1)) / (m + 1) for m, ck in enumerate(poly))
+        scale += abs(c) * X ** i * Y ** j * Wd * abs(x1 - x0)
+        if j > 2 * nI - 1 or i + j + 1 > 2 * nO - 1:
+            exactable = False
+    if exactable:
+        tol = Fraction(512 * 16) * EPS * scale * (1 + Fraction(max(nO, nI), 64))
+        if scale:
+            _worst(ctx, "reent/tol", float(abs(Fraction(v[0]) - tot) / tol))
+        if math.isnan(v[0]) or math.isinf(v[0]) or abs(Fraction(v[0]) - tot) > tol:
+            out.append(fail("prop", "polynomial of degree <= 2n-1 not integrated exactly (integrating overload)",
+                            "nested use (nOut=%d, nIn=%d): %r vs exact iterated integral %.17g" % (nO, nI, v[0], float(tot))))
+        elif abs(fr(toks(model)[0]) - tot) > tol:
+            out.append(fail("corr", "nested integrating overload differs from the model", "%s" % float(fr(toks(model)[0]))))
+    return out
+
+
 def compare(rq, impl, model, ctx):
     op = rq.split(" ", 1)[0]
     a = rq.split()[1:]
@@ -441,6 +584,8 @@ def compare(rq, impl, model, ctx):
         return compare_seq(rq, impl, model, ctx)
     if op == "c12.iseq":
         return compare_iseq(rq, impl, model, ctx)
+    if op == "c12.reent":
+        return compare_reent(rq, impl, model, ctx)
     fs, both = std_outcome(rq, impl, model)
     if op in ("c12.rule", "c12.sel"):
         n, x0, x1 = int(a[0]), fl(a[1]), fl(a[2])
